@@ -172,6 +172,120 @@ def nontrivial(m):
     return len(ns) >= 3 and ne >= 2 and (len(sources) >= 2 or any(len(p) >= 2 for p in par.values()))
 
 
+# ------------------------------------------------------------------ query-after-mutation histories
+SORT_USERS = ("topo", "depth", "dep", "long", "longw", "bfsn")
+
+
+def gen_history(rng, via_tg=False):
+    """One live object: build, query, mutate through a public mutator, query again, ...  Every mutation is
+    preceded by a query that sorts the graph and followed by queries, so an answer remembered across a
+    mutation shows."""
+    n = rng.randint(1, 5)
+    edges = random_dag(rng, n, rng.choice([0.3, 0.5]))
+    m = mapping_of(n, edges, rng)
+    live = node_order(m)
+    nxt = [max(live + [0]) + 1]
+    order = list(live)              # a topological-ish order used to keep most added edges acyclic
+    ops = []
+    with_remove = (not via_tg) and rng.random() < 0.4
+
+    def fresh():
+        nxt[0] += 1
+        return nxt[0] - 1
+
+    def query(k=None):
+        k = k or rng.choice(["topo", "topo", "depth", "dep", "long", "longw", "bfs", "bfsn", "dfs", "dfsn", "nodes", "sources"])
+        pick = (lambda: rng.choice(live)) if live else (lambda: 0)
+        if k == "depth":
+            return ["depth", pick(), rng.random() < 0.8]
+        if k == "dep":
+            return ["dep", pick(), pick()]
+        if k == "bfs":
+            return ["bfs", None]
+        if k == "bfsn":
+            return ["bfs", pick()]
+        if k == "dfs":
+            return ["dfs", None]
+        if k == "dfsn":
+            return ["dfs", pick()]
+        return [k]
+
+    for _ in range(rng.randint(2, 4)):
+        ops.append(query(rng.choice(SORT_USERS)))
+        for _ in range(rng.randint(0, 1)):
+            ops.append(query())
+        r = rng.random()
+        if r < 0.30 and len(live) >= 2:          # add_child between existing nodes (mostly forward)
+            i, j = sorted(rng.sample(range(len(order)), 2))
+            u, v = (order[i], order[j]) if rng.random() < 0.85 else (order[j], order[i])
+            ops.append(["add_child", u, v])
+        elif r < 0.60 and live:                  # add_child to a new node
+            v = fresh()
+            ops.append(["add_child", rng.choice(live), v])
+            live.append(v)
+            order.append(v)
+        elif r < 0.75:                           # add_node: a new node with existing / new children
+            u = fresh()
+            cs = rng.sample(live, min(len(live), rng.randint(0, 2)))
+            if rng.random() < 0.3:
+                c = fresh()
+                cs.append(c)
+                live.append(c)
+                order.append(c)
+            ops.append(["add_node", u, cs])
+            live.append(u)
+            order.insert(0, u)
+        elif r < 0.85 and live:                  # add_node on an existing node with more children
+            u = rng.choice(live)
+            later = order[order.index(u) + 1:]
+            cs = rng.sample(later, min(len(later), rng.randint(1, 2)))
+            ops.append(["add_node", u, cs])
+        elif r < 0.90:                           # add_child from a node that is not in the graph (ValueError)
+            ops.append(["add_child", fresh() + 50, rng.choice(live) if live else 0])
+        elif with_remove and live:
+            u = rng.choice(live)
+            ops.append(["remove", u])
+            live.remove(u)
+            order.remove(u)
+        else:
+            ops.append(["add_child", rng.choice(live), fresh()] if live else ["add_node", fresh(), []])
+            if live:
+                live.append(ops[-1][2])
+                order.append(ops[-1][2])
+            else:
+                live.append(ops[-1][1])
+                order.append(ops[-1][1])
+        for _ in range(rng.randint(2, 3)):
+            ops.append(query())
+        ops.append(query(rng.choice(SORT_USERS)))
+    c = {"map": m, "w": weights(rng, live), "ops": ops}
+    if via_tg:
+        c["via"] = "taskgraph"
+    return c
+
+
+def g_hop(op):
+    k = op[0]
+    if k == "add_node":
+        return "HAddNode %s %s" % (gz(op[1]), g_nodes(op[2]))
+    if k == "add_child":
+        return "HAddChild %s %s" % (gz(op[1]), gz(op[2]))
+    if k == "remove":
+        return "HRemove %s" % gz(op[1])
+    if k == "depth":
+        return "HDepth %s %s" % (gz(op[1]), "true" if op[2] else "false")
+    if k == "dep":
+        return "HDep %s %s" % (gz(op[1]), gz(op[2]))
+    if k in ("bfs", "dfs"):
+        return "%s %s" % ("HBfs" if k == "bfs" else "HDfs", "None" if op[1] is None else "(Some %s)" % gz(op[1]))
+    return {"nodes": "HNodes", "sources": "HSources", "topo": "HTopo", "long": "HLong", "longw": "HLongW"}[k]
+
+
+def g_history(c):
+    return "(%s, %s, %s)" % (g_map(c["map"]), glist(["(%s, %s)" % (gz(n), gz(x)) for n, x in c["w"]]),
+                             glist([g_hop(o) for o in c["ops"]]))
+
+
 # ------------------------------------------------------------------ findings (corpus/C17)
 def load_corpus():
     d = os.path.join(core.ROOT, "corpus", "C17")
@@ -356,6 +470,10 @@ def run(ctx):
                     "p0": [k for k in ns if ctx.rng.random() < 0.3],
                     "slo": [[k, ctx.rng.randint(1, 9)] for k in ns if ctx.rng.random() < 0.3]})
     payload["jobgraphs"] = jgs
+    # query-after-mutation histories on one live Graph / TaskGraph object
+    hists = [gen_history(ctx.rng) for _ in range(220 if ctx.tier == "quick" else 5000)]
+    hists += [gen_history(ctx.rng, via_tg=True) for _ in range(60 if ctx.tier == "quick" else 1000)]
+    payload["histories"] = hists
     impl = core.run_impl("graph.py", payload, timeout=1500)
     obs = impl["obs"][:len(cases)]
     replay_corpus(ctx, corpus, impl["obs"][len(cases):])
@@ -424,6 +542,45 @@ def run(ctx):
                                                "what": "JobGraph critical path with probability-0 jobs / slo's disagrees with the model"})
     except core.ModelEvalError as e:
         ctx.broken.append({"kind": "correspondence", "name": "S-graph-jobgraph", "detail": str(e)[-600:]})
+
+    ctx.rules.append(
+        "S-graph-history: ONE live Graph (or TaskGraph of Task objects) per history: built from a mapping, then 2-4 rounds of "
+        "[a query that sorts the graph (topological_sort / get_node_depth / are_dependent / get_longest_path / breadth_first(n)), "
+        "a public mutator (add_child between existing nodes, add_child to a new node, add_node / add_task with existing and new "
+        "children, add_node on an existing node, add_child from an unknown node, remove), 3-4 queries]; every answer (and every "
+        "mutator's exception) is compared with the model applied to the graph as it is at that moment; "
+        "distinct = distinct history; non-trivial = a successful mutation that changes the adjacency between two sorting queries")
+    try:
+        hcases = [(g_history(c), r, c) for c, r in zip(hists, impl["histories"])]
+        mism = ctx.model_stream("S-graph-history", HEADER, "adj * list (node * Z) * list hop", "g_observe_history", hcases, shard=150)
+        for idx, mv in mism[:3]:
+            c, r = hists[idx], impl["histories"][idx]
+            first = None
+            if isinstance(mv, list) and isinstance(r, list):
+                first = next((i for i, (a, b) in enumerate(zip(core.norm_val(mv), core.norm_val(r))) if a != b), None)
+            ctx.violation("history%d" % idx,
+                          {"stream": "S-graph-history", "history": c, "implementation": r, "model": mv,
+                           "first_differing_step": None if first is None else {"index": first, "op": c["ops"][first],
+                                                                              "implementation": r[first], "model": mv[first]},
+                           "what": "an answer of a live %s object after a mutation differs from the routine applied to its "
+                                   "current adjacency" % ("TaskGraph" if c.get("via") else "Graph")})
+        seenh = set()
+        nth = 0
+        for c in hists:
+            k = repr(c)
+            if k in seenh:
+                continue
+            seenh.add(k)
+            muts = [i for i, o in enumerate(c["ops"]) if o[0] in ("add_node", "add_child", "remove")]
+            if any(any(q[0] in ("topo", "depth", "dep", "long", "longw") for q in c["ops"][:i])
+                   and any(q[0] in ("topo", "depth", "dep", "long", "longw") for q in c["ops"][i + 1:]) for i in muts):
+                nth += 1
+        ctx.cov["distinct_nontrivial"] += nth
+        ctx.cov["input_distribution"]["histories"] = {"graph": sum(1 for c in hists if not c.get("via")),
+                                                      "taskgraph": sum(1 for c in hists if c.get("via")),
+                                                      "with_remove": sum(1 for c in hists if any(o[0] == "remove" for o in c["ops"]))}
+    except core.ModelEvalError as e:
+        ctx.broken.append({"kind": "correspondence", "name": "S-graph-history", "detail": str(e)[-600:]})
 
     # ---------------- wrappers (compared with the model's values computed above by the implementation-independent monitor
     # and with the Graph routines they wrap)
